@@ -148,6 +148,7 @@ def run_one(seed, tier, explicit=None):
                 path = xmlout.package(route if route != 'mem' else 'xml', d, tgt['name'], data,
                                       siblings=sib_data if with_sibs else None)
                 before = sha_tree(d)
+                sim.W.short_reads = prng.random() < 0.5     # also inside gzip/xz streams
                 sim.W.begin_op(budget=sim.budget)
                 if route == 'mem':
                     def go():
@@ -162,6 +163,7 @@ def run_one(seed, tier, explicit=None):
                 else:
                     _, exc = sim.call(wn.add, path, progress_handler=SimHandler)
                 sim.W.end_op()
+                sim.W.short_reads = False
                 if isinstance(exc, Violation):
                     raise exc
                 if exc is not None:
